@@ -9,6 +9,7 @@ import (
 	"fmt"
 	"testing"
 
+	"verif/guard"
 	"verif/refs/gcmref"
 	"verif/vx"
 )
@@ -21,7 +22,13 @@ type c06case struct {
 	AadLen int
 	Tag    int
 	Group  string
+	// placement (group "placement"): the named argument ends Cross bytes after (negative: before) the boundary between
+	// two accessible pages
+	CrossArg string
+	Cross    int
 }
+
+var c06arena *guard.Arena
 
 func (c c06case) nonce() []byte {
 	if c.Nonce != "" {
@@ -48,6 +55,40 @@ func c06eval(r *vx.R, c c06case) {
 	r.Eval(1)
 	pollute()
 	want := gcmref.Seal(refCipher(key), nonce, pt, aad, c.Tag)
+	// every input is a slice of a larger record: non-zero bytes follow it inside its capacity (as when a nonce or a header
+	// is cut out of a packet); they are not part of the input and must neither be used nor changed
+	junk := func(b []byte, tag string) ([]byte, []byte) {
+		rec := append(append([]byte{}, b...), vx.Fill("junk"+tag, 40)...)
+		for i := len(b); i < len(rec); i++ {
+			rec[i] |= 0x81
+		}
+		return rec[:len(b)], rec
+	}
+	var recN, recP, recA []byte
+	nonce, recN = junk(nonce, "n")
+	pt, recP = junk(pt, "p")
+	aad, recA = junk(aad, "a")
+	if c.CrossArg != "" {
+		if c06arena == nil {
+			c06arena = guard.New(2)
+		}
+		at := func(b []byte) []byte {
+			off := guard.Page + c.Cross - len(b)
+			if off < 0 {
+				off = 0
+			}
+			return c06arena.At(b, off)
+		}
+		switch c.CrossArg {
+		case "aad":
+			aad = at(aad)
+		case "pt":
+			pt = at(pt)
+		case "nonce":
+			nonce = at(nonce)
+		}
+	}
+	keepRN, keepRP, keepRA := append([]byte{}, recN...), append([]byte{}, recP...), append([]byte{}, recA...)
 	keepN, keepP, keepA := append([]byte{}, nonce...), append([]byte{}, pt...), append([]byte{}, aad...)
 	var got []byte
 	kind, msg := vx.TryFault(func() { got = a.Seal(nil, nonce, pt, aad) })
@@ -66,6 +107,9 @@ func c06eval(r *vx.R, c c06case) {
 	}
 	if !bytes.Equal(nonce, keepN) || !bytes.Equal(pt, keepP) || !bytes.Equal(aad, keepA) {
 		r.Violation("seal:input-modified", "Seal modified nonce, plaintext or aad", c)
+	}
+	if !bytes.Equal(recN, keepRN) || !bytes.Equal(recP, keepRP) || !bytes.Equal(recA, keepRA) {
+		r.Violation("seal:writes-behind-input", "Seal changed bytes that follow an input inside its capacity", c)
 	}
 	// the same message sealed the way a record layer does it: one buffer header|payload|room, dst = additional data =
 	// header, payload encrypted in place behind it
@@ -141,6 +185,30 @@ func c06enumerate(emit func(c c06case)) {
 			emit(c06case{Key: "s3", NLen: nl, PtLen: 33, AadLen: 5, Tag: tag, Group: "tag"})
 		}
 	}
+	// (h) placement: the argument's end at every offset -15..16 around the boundary between two mapped pages (code that
+	// treats "near a page boundary" specially), for every short length
+	for _, arg := range []string{"aad", "pt", "nonce"} {
+		for cross := -15; cross <= 16; cross++ {
+			for l := 1; l <= 50; l++ {
+				if !th && l > 34 && l%5 != 0 {
+					continue
+				}
+				c := c06case{Key: "s6", NLen: 12, PtLen: 21, AadLen: 9, Tag: 16, Group: "placement:" + arg, CrossArg: arg, Cross: cross}
+				switch arg {
+				case "aad":
+					c.AadLen = l
+				case "pt":
+					c.PtLen = l
+				case "nonce":
+					if l == 12 {
+						continue
+					}
+					c.NLen = l
+				}
+				emit(c)
+			}
+		}
+	}
 	// (g) large messages: lengths around 2^11, 2^12, 2^13, 2^16 (and 2^20 in the thorough tier), as plaintext and as aad
 	large := []int{2047, 2048, 2049, 4095, 4096, 4097, 8192, 8192 + 255, 16384 + 5, 65535, 65536, 65537}
 	if th {
@@ -155,7 +223,7 @@ func c06enumerate(emit func(c c06case)) {
 		}
 		emit(c06case{Key: "std", NLen: 12, PtLen: l, AadLen: l, Tag: 12, Group: "large-both"})
 	}
-	// (f) counter wrap: solve the nonce so that J0 mod 2^32 = 2^32 - j
+	// (h) additional data / plaintext / nonce of every length 1..50 ending at every offset -15..16 around the boundary between two mapped pages; (f) counter wrap: solve the nonce so that J0 mod 2^32 = 2^32 - j
 	for _, kn := range []string{"std", "s4"} {
 		ref := refCipher(keyByName(kn))
 		h := gcmref.H(ref)
@@ -183,7 +251,7 @@ func c06enumerate(emit func(c c06case)) {
 }
 
 func TestVX_C06(t *testing.T) {
-	r := vx.Begin("C06", partName(), "Seal vs gcmref(sm4ref) (bit-serial GF(2^128), SP 800-38D algorithms 1-5): (a) every plaintext length 0..1100 x aad classes {0,1,15,16,17,63,64,65,127,128,129,255,1100}; (b) every aad length 0..1100 x the same plaintext classes; (c, thorough) the full 1101x1101 square; (d) nonce lengths 1..300 x {0,1,16,17,255}^2; (e) tag sizes 12..16; (g) large messages: plaintext resp. aad lengths {2047,2048,2049,4095,4096,4097,8192,8447,16389,65535,65536,65537} [thorough: also 2^20-1, 2^20, 2^20+17] x small other part x nonce {12,16}, and both large; (f) counter wrap: nonces of length 16/17/32/128 *solved* by field inversion so that J0 mod 2^32 = 2^32-j, j=0..40, x plaintext lengths that put the wrap inside every kernel width and the tail. Keys {standard sample, zero, seeded}. A third of the cases with additional data is sealed a second time in the record layout (one buffer header|payload|room: dst = additional data = header, payload in place). Shape=(group, key, ptlen, aadlen, noncelen, tag, path)")
+	r := vx.Begin("C06", partName(), "Seal vs gcmref(sm4ref) (bit-serial GF(2^128), SP 800-38D algorithms 1-5): (a) every plaintext length 0..1100 x aad classes {0,1,15,16,17,63,64,65,127,128,129,255,1100}; (b) every aad length 0..1100 x the same plaintext classes; (c, thorough) the full 1101x1101 square; (d) nonce lengths 1..300 x {0,1,16,17,255}^2; (e) tag sizes 12..16; (g) large messages: plaintext resp. aad lengths {2047,2048,2049,4095,4096,4097,8192,8447,16389,65535,65536,65537} [thorough: also 2^20-1, 2^20, 2^20+17] x small other part x nonce {12,16}, and both large; (f) counter wrap: nonces of length 16/17/32/128 *solved* by field inversion so that J0 mod 2^32 = 2^32-j, j=0..40, x plaintext lengths that put the wrap inside every kernel width and the tail. Keys {standard sample, zero, seeded}. Every input is the head of a longer record whose following bytes are non-zero (capacity beyond length). A third of the cases with additional data is sealed a second time in the record layout (one buffer header|payload|room: dst = additional data = header, payload in place). Shape=(group, key, ptlen, aadlen, noncelen, tag, path)")
 	defer r.End()
 	selfCheck()
 	if raw, ok := vx.Replay(partName()); ok {
